@@ -143,10 +143,10 @@ def hand_type(name):
 
 
 def deck_of(name):
-    if name in DECKS:
-        return DECKS[name]
     if isinstance(name, (list, tuple)):
         return tuple(Card.parse(''.join(name)))
+    if name in DECKS:
+        return DECKS[name]
     return getattr(pk.Deck, name)
 
 
